@@ -134,8 +134,8 @@ Proof.
     destruct bw as [x4|] eqn:Ebw end.
   - intros H; inversion H; subst. eapply nl_trans; [exact H3|].
     assert (H4 : nl x3 x4).
-    { destruct (n_router n) as [rt|]; [|discriminate]. destruct (rt_wait rt) as [[[] tmo]|]; try discriminate.
-      dmatch_hyp Ebw; [discriminate|]. inversion Ebw; subst. apply nl_log_event. reflexivity. }
+    { destruct (n_router n) as [rt|]; [|discriminate]. destruct (rt_wait rt) as [[[] tmo]|]; try discriminate; try (dmatch_hyp Ebw; [discriminate|]); inversion Ebw; subst.
+      all: (apply nl_log_event; reflexivity). }
     eapply nl_trans; [exact H4|apply nl_with_session].
   - destruct (pick_node_exit a x3 ri n (length (r_path r0)) false []) as [x5 [e5 op5]| |] eqn:Epk; try discriminate.
     intros H; inversion H; subst. eapply nl_trans; [exact H3|eapply pick_node_exit_nl; eauto].
